@@ -22,10 +22,14 @@ type params struct {
 	Close    bool // a closer thread calls Close at a chosen point
 	F        int
 	P        int
+	NormalClose bool // a Read on a transport that was closed locally fails with the normal-close error (as the WebSocket back-ends do)
 	Later    int // number of further Writes issued once the transport is dead (budget exhausted / closed); the request queue holds 1024
 }
 
 func (p params) name() string {
+	if p.NormalClose {
+		return fmt.Sprintf("w%d/attempts%d/close%v/F%d/P%d/normal-close-reads", p.Writers, p.Attempts, p.Close, p.F, p.P)
+	}
 	if p.Later > 0 {
 		return fmt.Sprintf("w%d/attempts%d/close%v/F%d/P%d/later%d", p.Writers, p.Attempts, p.Close, p.F, p.P, p.Later)
 	}
@@ -44,6 +48,10 @@ func scenarios(tier string) []vlib.Scenario {
 	add(params{Writers: 1, Attempts: 2, Close: true, F: 1})
 	add(params{Writers: 2, Attempts: 1, Close: true, F: 0, P: 1})
 	add(params{Writers: 1, Attempts: 1, F: 3})
+	// the underlying transport reports a local close to its pending Read as a normal close
+	add(params{Writers: 1, Attempts: 2, F: 1, NormalClose: true})
+	add(params{Writers: 1, Attempts: 2, F: 2, NormalClose: true})
+	add(params{Writers: 2, Attempts: 1, F: 1, P: 1, NormalClose: true})
 	// a caller that keeps retrying on a dead transport: more later Writes than the request queue holds
 	add(params{Writers: 1, Attempts: 1, F: 0, Later: 1100})
 	add(params{Writers: 1, Attempts: 1, F: 2, Later: 1100})
@@ -77,6 +85,7 @@ type fakeTr struct {
 	readErr error
 	log     [][]byte
 	closed  bool
+	writeBroken bool
 	cfg     transport.DialConfig
 }
 
@@ -90,6 +99,10 @@ func (f *fakeTr) Read() ([]byte, error) {
 	if f.readErr != nil {
 		return nil, f.readErr
 	}
+	if f.w.p.NormalClose {
+		// what the WebSocket back-ends return from a Read that was pending when the transport was closed locally
+		return nil, fmt.Errorf("fake: closed: %w", iscperrors.ErrConnectionNormalClose)
+	}
 	return nil, transport.ErrAlreadyClosed
 }
 
@@ -98,11 +111,15 @@ func (f *fakeTr) Write(b []byte) error {
 	if f.closed {
 		return transport.ErrAlreadyClosed
 	}
-	if f.readErr != nil {
+	if f.readErr != nil || f.writeBroken {
 		return fmt.Errorf("fake: broken pipe")
 	}
 	if vsched.ChooseBudget(fmt.Sprintf("write-fail#%d:%s", f.idx, string(b)), 2, vsched.BudF) == 1 {
-		f.readErr = fmt.Errorf("fake: connection reset")
+		if f.w.p.NormalClose {
+			f.writeBroken = true // only the sending direction fails: the pending Read ends when the transport is closed
+		} else {
+			f.readErr = fmt.Errorf("fake: connection reset")
+		}
 		f.w.failures++
 		return fmt.Errorf("fake: write failed")
 	}
@@ -114,7 +131,7 @@ func (f *fakeTr) Write(b []byte) error {
 func (f *fakeTr) Close() error                                           { return f.CloseWithStatus(transport.CloseStatusNormal) }
 func (f *fakeTr) CloseWithStatus(transport.CloseStatus) error {
 	vsched.Yield("h:fake-close")
-	if !f.closed && f.readErr == nil && !f.w.closed {
+	if !f.closed && f.readErr == nil && !f.writeBroken && !f.w.closed {
 		f.w.healthyClosed = append(f.w.healthyClosed, f.idx)
 	}
 	f.closed = true
